@@ -501,6 +501,11 @@ def join(sep, items):
 
 def atom(name, nosep='/\\', nonempty=True, declare=True):
     """fresh symbolic string that contains none of the characters in nosep"""
+    r = core._rp()
+    if r is not None:
+        r.inputs[name] = True
+        v = r.model.get(name)
+        return v if _isinstance(v, _str) else ('x' if nonempty else '')
     e = E()
     t = z3.String('%s!%d' % (name, next(e.fresh)))
     if declare:
@@ -530,6 +535,11 @@ def opaque(name):
 
 def sepchar(name):
     """a single character that is '/' or '\\' (no fork)"""
+    r = core._rp()
+    if r is not None:
+        r.inputs[name] = True
+        v = r.model.get(name)
+        return v if v in ('/', '\\') else '/'
     e = E()
     t = z3.String('%s!%d' % (name, next(e.fresh)))
     e.inputs[name] = t
